@@ -10,6 +10,10 @@ import sys
 ROOT = os.path.dirname(os.path.dirname(os.path.abspath(__file__)))
 sys.path.insert(0, ROOT)
 sys.setrecursionlimit(10000)
+# VERIF_REPO=<dir> points the checks at another checkout of xdsl (scratch copies used to try
+# property-breaking changes); default /repo.  Both the AST extraction and `import xdsl` follow it.
+if os.environ.get("VERIF_REPO"):
+    sys.path.insert(0, os.environ["VERIF_REPO"])
 
 LEVELS = json.load(open(os.path.join(ROOT, "levels.json")))
 
